@@ -706,7 +706,7 @@ fn both_case(stream: &str, inp: &ExecInput, extra_code: u32, mut tags: Vec<Strin
     let s = execute_fresh(&file, &tree, &info, &inp.supplied, false, false);
     let l = execute_fresh(&file, &tree, &info, &inp.supplied, true, false);
     let r = run_in_term(&file, &inp.dsl, &tree, &info, &inp.supplied, false)?;
-    let model = format!("both_verdict ({}) ({}) {} {}", tree_term(&info), r, s.coq(), l.coq());
+    let model = format!("both_verdict_idx ({}) ({}) {} {}", tree_term(&info), r, s.coq(), l.coq());
     let verdict = if extra_code != 0 { extra_code.to_string() } else { model };
     let mut replay = input_json(inp);
     replay["stream"] = json!(stream);
